@@ -374,7 +374,10 @@ class Client(base_client.BaseClient):
             except Exception as e:  # pragma: no cover
                 raise exceptions.ConnectionError(
                     'Unexpected recv exception: ' + str(e))
-            open_packet = packet.Packet(encoded_packet=p)
+            try:
+                open_packet = packet.Packet(encoded_packet=p)
+            except Exception:
+                raise exceptions.ConnectionError('no OPEN packet') from None
             if open_packet.packet_type != packet.OPEN:
                 raise exceptions.ConnectionError('no OPEN packet')
             self.logger.info(
